@@ -128,6 +128,7 @@ type nodeWorld struct {
 	sentBy   map[string]map[peer.ID]bool
 	extraOps map[string]func(it Item)
 
+	teeTracers func(mem EventTracer) EventTracer
 	onFakePub func(fp *fakePeer, m *pb.Message)
 	localHook func(topic string, data []byte, c *call)
 	localMids map[string]string // payload -> message id of local publications (seen by validators)
@@ -410,7 +411,7 @@ func (w *nodeWorld) startNode(extra ...Option) error {
 	opts = append(opts, w.validatorOptions()...)
 	opts = append(opts, extra...)
 	kr := newPrng(w.plan.Seed, "nodekey")
-	n, err := w.s.newNode("N", genKey(kr, w.plan.ki("node_key_type", 0)), nodeCfg{router: router, opts: opts, rsize: w.plan.ki("rsize", 3)})
+	n, err := w.s.newNode("N", genKey(kr, w.plan.ki("node_key_type", 0)), nodeCfg{router: router, opts: opts, rsize: w.plan.ki("rsize", 3), tee: w.teeTracers})
 	if err != nil {
 		return err
 	}
@@ -637,14 +638,17 @@ func (w *nodeWorld) exec1(it Item) {
 		}
 	case "reset-in":
 		if fp := w.fake(int(it.a(0))); fp != nil {
+			fp.disturbed = true
 			fp.resetIn()
 		}
 	case "close-in":
 		if fp := w.fake(int(it.a(0))); fp != nil {
+			fp.disturbed = true
 			fp.closeIn()
 		}
 	case "disconnect":
 		if fp := w.fake(int(it.a(0))); fp != nil {
+			fp.disturbed = true
 			w.lastDisconnect[fp.id] = s.now()
 			fp.disconnect()
 		}
@@ -660,6 +664,7 @@ func (w *nodeWorld) exec1(it Item) {
 		if fp := w.fake(int(it.a(0))); fp != nil {
 			fp.stall(it.a(1) != 0)
 			if it.a(1) != 0 {
+				fp.everStalled = true
 				s.fault("peer_stalled")
 			}
 		}
@@ -736,6 +741,7 @@ func (w *nodeWorld) exec1(it Item) {
 		return
 	case "blacklist":
 		if fp := w.fake(int(it.a(0))); fp != nil {
+			fp.disturbed = true
 			s.do("BlacklistPeer "+fp.name, func() any { w.n.ps.BlacklistPeer(fp.id); return nil })
 		}
 		return
